@@ -328,6 +328,7 @@ var PoolChoice bool
 type Pool struct {
 	New   func() any
 	items []any
+	mu    sync.Mutex // guards items when the shim is used by free-running goroutines (no exploration)
 }
 
 // OnPoolGet, when set, is called with every value a Pool hands out (harness
@@ -347,6 +348,8 @@ func (p *Pool) Get() any {
 }
 
 func (p *Pool) get() (any, bool) {
+	p.mu.Lock()
+	defer p.mu.Unlock()
 	n := len(p.items)
 	if n > 0 {
 		k := n - 1
@@ -380,14 +383,16 @@ func (p *Pool) get() (any, bool) {
 
 func (p *Pool) Put(x any) {
 	point(op{kind: opPoolPut})
+	p.mu.Lock()
 	p.items = append(p.items, x)
+	p.mu.Unlock()
 	// a second point after the operation: code that touches the value after
 	// handing it back (use after Put) must be interleavable with other threads
 	point(op{kind: opYield, tag: "after Pool.Put"})
 }
 
 // Reset empties the pool (between executions).
-func (p *Pool) Reset() { p.items = nil }
+func (p *Pool) Reset() { p.mu.Lock(); p.items = nil; p.mu.Unlock() }
 
 // Len returns the number of pooled items.
-func (p *Pool) Len() int { return len(p.items) }
+func (p *Pool) Len() int { p.mu.Lock(); defer p.mu.Unlock(); return len(p.items) }
